@@ -139,6 +139,14 @@ fn spec_to_m(spec: &LmSpec) -> M {
     }
 }
 
+fn builder_model_infeasible(spec: &LmSpec) -> bool {
+    let (mb, _) = spec_to_m(spec).to_builder();
+    let Ok(Ok(lm)) = catch_unwind(AssertUnwindSafe(|| mb.linearize())) else { return false };
+    let Ok(xl) = XLin::from_rooc(&lm) else { return false };
+    // the second case is the known C05 finding (MicroLP calls a near-degenerate box infeasible)
+    crate::props::c04::near_degenerate_interval(&LmSpec::from_rooc(&lm)) || matches!(solve_milp(&xl.to_lp(), 20_000), Ok((LpAnswer::Infeasible, _)))
+}
+
 #[derive(Debug, Clone, Copy, PartialEq)]
 enum Door {
     Function,
@@ -279,6 +287,18 @@ impl Driver for C15 {
             // unlimited solve time (median of 3), inside the CPU budget
             out.begin_case(first, &json!({"model": spec, "setting": "timing run without limits"}).to_string());
             let mut times = vec![];
+            // the measurement itself is bounded (2 s): a search that needs longer is not swept
+            let probe = catch_unwind(AssertUnwindSafe(|| rooc::solve_milp_lp_problem_with(&lm, &MilpOptions { mip_gap: None, time_limit: Some(Duration::from_secs(2)) })));
+            let too_slow = match &probe {
+                Ok(Ok(s)) => s.status() != SolutionStatus::Optimal,
+                Ok(Err(rooc::SolverError::LimitReached)) => true,
+                _ => false,
+            };
+            if too_slow {
+                out.end_case();
+                out.tag("unlimited-solve-exceeds-2s:model-skipped");
+                continue;
+            }
             for _ in 0..3 {
                 let t0 = Instant::now();
                 let _ = run_setting(&spec, &lm, &settings[0], Duration::ZERO);
@@ -400,6 +420,11 @@ impl Driver for C15 {
                         Outcome::Infeasible => {
                             if tkind == "infeasible" {
                                 out.tag(&format!("{lc}:Infeasible-agrees"));
+                            } else if s.door == Door::Builder && builder_model_infeasible(&spec) {
+                                // the builder compiles first; bounds derived in floating point can close a
+                                // feasible set that is a single point (equality-dense rows). That is a
+                                // question for C01, not for the limits under test here
+                                out.inconclusive("builder door: the compiled model is exactly infeasible or has a near-degenerate derived interval (C01 / C05 matter)");
                             } else {
                                 out.violation(
                                     &format!("Infeasible-on-{tkind}({})", if s.limit.is_some() { "time-limit" } else { "no-limit" }),
